@@ -1025,7 +1025,8 @@ def oracle_C14(ctx, cases, answers):
         fins = [x for x in calls if x.startswith("fin:")]
         is_parse = " parse " in c["req"]
         body = a[:m.start()]
-        res = body.split("b=", 1)[1] if "b=" in body and not is_parse else body
+        # the build result is the LAST " b=" field (step outputs before it may contain "b=" inside hex, e.g. 6b=61)
+        res = re.split(r"(?:^|\| )b=", body)[-1] if re.search(r"(?:^|\| )b=", body) and not is_parse else body
         res = res.split(" s=")[0]
         if is_parse:
             d = decompose(c["s"])
